@@ -22,8 +22,8 @@ def _bad(fields):
 class C09(Spec):
     prop = "C09"
     lean_modules = ["SonicSpec.Props.C09"]
-    rule = ("hist: a fixed probe set (Marshal/Unmarshal of plain, deeply nested, recursive, same-named and pointer-receiver-marshaler "
-            "types) executed in a FRESH PROCESS after a prelude (permuted first use, Pretouch/PretouchMany with inline/recursion depths, "
+    rule = ("phist: a fixed probe set (Marshal/Unmarshal of plain, deeply nested, recursive, same-named (two packages, two function-local "
+            "types), equal-hash reflect.StructOf and pointer-receiver-marshaler types) executed in a FRESH PROCESS after a prelude (permuted first use, Pretouch/PretouchMany with inline/recursion depths, "
             "thousands of filler types forcing rehash) and compared with a fresh process without prelude and with encoding/json "
             "(non-trivial: prelude is not `none`); order: one key set inserted in different orders / capacities on the real _ProgramMap vs the model")
     trusted_base = ["the compiler and the generated code are not modelled here: that programs compiled with different inline/recursion "
@@ -45,33 +45,68 @@ class C09(Spec):
         ]
 
     def extra(self, ctx):
-        """which shape the two modelled mechanisms have in the current tree (recorded; only an unrecognised
-        shape is a broken tie - a repaired tree legitimately stops matching the defect models)"""
+        """source shapes the model of Model/ConcLoad.lean follows, re-read from the current tree.  A shape that
+        went back to the pre-fix model (or that is not recognised) is a broken tie: the theorems about the
+        current model no longer speak about the code.  The behavioural phist streams remain the failing-input search."""
         facts = {}
         probs = []
+
+        def strip(src):
+            src = re.sub(r"/\*.*?\*/", "", src, flags=re.S)
+            return re.sub(r"//[^\n]*", "", src)
+
+        def body(src, header_re):
+            m = re.search(header_re + r".*?\n}\n", src, flags=re.S)
+            return m.group(0) if m else ""
+
+        def tie(kind, what):
+            probs.append({"what": "tie:%s - %s" % (kind, what)})
+
         try:
-            ld = open(os.path.join(core.REPO, "loader", "loader_latest.go")).read()
-            m = re.search(r"func Load\(.*?\n}\n", ld, flags=re.S)
-            b = m.group(0) if m else ""
-            if re.search(r"f\.Name\s*==\s*s", b):
-                facts["loader.Load"] = "maps results back by NAME (Model/ConcLoad.findEntry; defect C09-same-name-batch applies)"
-            elif "EntryOff" in b and "Name ==" not in b:
-                facts["loader.Load"] = "maps results back by position (repaired; load_maps_back holds without the name hypothesis)"
+            # (a) loader.Load: offsets remembered by position before the sort, out[i] built from them
+            ld = strip(open(os.path.join(core.REPO, "loader", "loader_latest.go")).read())
+            b = body(ld, r"func Load\(")
+            by_pos = (re.search(r"(\w+)\[i\]\s*=\s*f\.EntryOff", b) and re.search(r"for i, \w+ := range (\w+)", b)
+                      and b.find("EntryOff") < b.find("makeModuledata(") and not re.search(r"\.Name\s*==", b))
+            if by_pos:
+                facts["loader.Load"] = "by position (Model/ConcLoad.loadWith)"
+            elif re.search(r"\.Name\s*==", b):
+                facts["loader.Load"] = "by NAME (pre-fix model PreFix.load applies)"
+                tie("loader.Load-matches-by-name", "loader.Load maps results back by f.Name again; distinct types that print identically "
+                    "share one codec (witness: Props.C09.PreFix.load_same_name_shares_entry)")
             else:
                 facts["loader.Load"] = "unrecognised"
-                probs.append({"what": "source fact: loader.Load result mapping has a shape the model does not know"})
-            vc = open(os.path.join(core.REPO, "internal", "encoder", "vars", "cache.go")).read()
-            m = re.search(r"func FindOrCompile\(.*?\n}\n", vc, flags=re.S)
-            b = m.group(0) if m else ""
-            if "programCache.Get(vt)" in b:
-                facts["encoder.FindOrCompile"] = "cache keyed by type only (Model/ConcLoad.serve; defect C09-ptr-recv-first-use applies)"
-            elif "pv" in b and "Get(vt)" in b:
-                facts["encoder.FindOrCompile"] = "cache selected by pv (repaired)"
+                tie("loader.Load-shape", "result mapping of loader.Load has a shape the model does not know")
+            # (b) encoder cache selected by pv in all three entry points
+            vc = strip(open(os.path.join(core.REPO, "internal", "encoder", "vars", "cache.go")).read())
+            cf = body(vc, r"func cacheFor\(")
+            sel = bool(cf) and re.search(r"if pv\s*{\s*return programCachePV", cf) is not None
+            bad = []
+            for fn in ("FindOrCompile", "GetProgram", "ComputeProgram"):
+                fb = body(vc, r"func %s\(" % fn)
+                if not fb or "cacheFor(pv)" not in fb or re.search(r"\bprogramCache(PV)?\.", fb):
+                    bad.append(fn)
+            if sel and not bad:
+                facts["encoder cache"] = "selected by pv (key = (type, pv); Model/ConcLoad.serve)"
             else:
-                facts["encoder.FindOrCompile"] = "unrecognised"
-                probs.append({"what": "source fact: encoder FindOrCompile has a shape the model does not know"})
+                facts["encoder cache"] = "NOT selected by pv in %s" % (bad or ["cacheFor"])
+                tie("encoder-cache-not-keyed-by-pv", "vars.%s no longer select the program cache by pointer-value-ness; the program of a type "
+                    "depends on the first use again (witness: Props.C09.PreFix.history_independence_fails)" % "/".join(bad or ["cacheFor"]))
+            # (c) pretouch pipelines: parallel slices indexed by position
+            for label, rel, fn in (("jitdec.pretouchRec", ("internal", "decoder", "jitdec", "decoder.go"), "pretouchRec"),
+                                   ("encoder.pretouchRecX86", ("internal", "encoder", "pools_amd64.go"), "pretouchRecX86")):
+                src = strip(open(os.path.join(core.REPO, *rel)).read())
+                fb = body(src, r"func %s\(" % fn)
+                loop = re.search(r"for _, p := range pendings\s*{\s*entries = append\(entries, p\)\s*items = append\(items, p\.item\)\s*}", fb)
+                use = re.search(r"loaded := \w+\.LoadMany\(items\)\s*for i, p := range entries\s*{[^}]*?loaded\[i\]", fb, flags=re.S)
+                if loop and use and not re.search(r"\[p\.item\.FuncName\]|FuncName\]", fb):
+                    facts[label] = "parallel slices entries/items, loaded[i] registered for entries[i] (Model/ConcLoad.pretouchBatch)"
+                else:
+                    facts[label] = "NOT positional"
+                    tie("pretouch-batch-not-positional", "%s no longer pairs entries[i] with loaded[i]; same-named types of one batch can get one "
+                        "codec (witness: Props.C09.PreFix.pretouch_batch_same_name_wrong_code)" % label)
         except OSError as e:
-            probs.append({"what": "source fact: cannot read loader/encoder sources", "detail": str(e)})
+            tie("source-unreadable", str(e))
         ctx["run"].cov["source_facts"] = facts
         return probs
 
